@@ -42,6 +42,11 @@ def generate(seed, tier, enlarged=False):
         {'kind': 'twin', 'procs': [{'ts': 1.0, 'par': False, 'cls': 'acc'}, {'ts': 1.0, 'par': True, 'cls': 'setter'},
                                    {'ts': 1.0, 'par': False, 'cls': 'acc'}],
          'step_par': True, 'calls': [[2.0, 'update'], [1.0, 'update']], 'end': 'twice', 'profile': False},
+        # corpus: a parallel process that changes its own timestep through its parameters
+        {'kind': 'twin', 'procs': [{'ts': 2.0, 'par': True, 'cls': 'adaptive'}, {'ts': 1.0, 'par': False, 'cls': 'acc'}],
+         'step_par': False, 'calls': [[6.0, 'update']], 'end': 'once', 'profile': False},
+        # corpus: a compartment holding a parallel STEP is deleted while the step is idle
+        {'kind': 'delete', 'ts': 1.0, 'at': 2, 'first': 'acc', 'victim': 'step'},
     ]
     for i in range(n):
         r = i % 7
@@ -58,7 +63,7 @@ def generate(seed, tier, enlarged=False):
         elif r < 6:
             nproc = rng.randint(1, 3)
             procs = [{'ts': rng.choice([0.5, 1.0, 1.0, 2.0]), 'par': rng.random() < 0.6,
-                      'cls': rng.choice(['acc', 'acc', 'setter'])} for _ in range(nproc)]
+                      'cls': rng.choice(['acc', 'acc', 'setter', 'adaptive'])} for _ in range(nproc)]
             if not any(p['par'] for p in procs):
                 procs[0]['par'] = True
             calls = [[rng.choice([1.0, 2.0, 0.5, 3.0]), rng.choice(['update', 'run', 'update'])]
@@ -74,6 +79,8 @@ def generate(seed, tier, enlarged=False):
         else:
             cases.append({'kind': 'delete', 'ts': rng.choice([1.0, 3.0]), 'at': rng.choice([1, 2]),
                           'first': rng.choice(['acc', 'killer'])})
+            if rng.random() < 0.5:
+                cases[-1] = {'kind': 'delete', 'ts': 1.0, 'at': rng.choice([1, 2, 3]), 'first': 'acc', 'victim': 'step'}
     return cases
 
 
@@ -124,13 +131,16 @@ def run_proto(c):
 
 def build_twin(c, parallel):
     from vivarium.core.engine import Engine
-    from harness.par_kit import Acc, Doubler, Setter, Busy
+    from harness.par_kit import Acc, Doubler, Setter, Busy, Adaptive
     processes, topology = {}, {}
     for i, p in enumerate(c['procs']):
         params = {'pid': i, 'time_step': p['ts']}
         if parallel and p['par']:
             params['_parallel'] = True
-        processes['p%d' % i] = {'acc': Acc, 'setter': Setter, 'busy': Busy}[p.get('cls', 'acc')](params)
+        if p.get('cls') == 'adaptive':
+            params = dict(params, timestep=2.0)
+            params.pop('time_step')
+        processes['p%d' % i] = {'acc': Acc, 'setter': Setter, 'busy': Busy, 'adaptive': Adaptive}[p.get('cls', 'acc')](params)
         topology['p%d' % i] = {'shared': ('shared',), 'own': ('own%d' % i,)}
     sp = {'_parallel': True} if (parallel and c['step_par']) else {}
     steps = {'d': Doubler(sp)}
@@ -187,7 +197,10 @@ def run_twin(c):
 
 def run_delete(c):
     from vivarium.core.engine import Engine
-    from harness.par_kit import Acc, Killer
+    from harness.par_kit import Acc, Killer, Doubler
+    import gc
+    if c.get('victim') == 'step':
+        return run_delete_step(c)
     acc = ('acc', Acc({'pid': 0, 'time_step': c['ts'], '_parallel': True}))
     kil = ('killer', Killer({'at': c['at'], 'key': 'c0'}))
     order = [acc, kil] if c['first'] == 'acc' else [kil, acc]
@@ -211,6 +224,37 @@ def run_delete(c):
         gone = None
     left = grace()
     # reap whatever is left so that later cases start clean
+    for ch in multiprocessing.active_children():
+        ch.terminate()
+    return {'err': err, 'gone': gone, 'left': left}
+
+
+def run_delete_step(c):
+    """the deleted compartment holds a serial process and a parallel STEP (idle when the compartment goes); the
+    garbage collector is kept off so that only the engine's own shutdown path can reap the worker"""
+    from vivarium.core.engine import Engine
+    from harness.par_kit import Acc, Killer, Doubler
+    import gc
+    processes = {'agents': {'c0': {'acc': Acc({'pid': 0, 'time_step': 1.0})}}, 'killer': Killer({'at': c['at'], 'key': 'c0'})}
+    steps = {'agents': {'c0': {'d': Doubler({'_parallel': True})}}}
+    flow = {'agents': {'c0': {'d': []}}}
+    topology = {'agents': {'c0': {'acc': {'shared': ('..', '..', 'shared'), 'own': ('own',)},
+                                  'd': {'shared': ('..', '..', 'shared')}}},
+                'killer': {'agents': ('agents',)}}
+    err, gone = None, None
+    gc.disable()
+    try:
+        with contextlib.redirect_stdout(io.StringIO()):
+            eng = Engine(processes=processes, steps=steps, flow=flow, topology=topology, display_info=False)
+            eng.update(c['at'] + 1)
+            gone = 'c0' not in eng.state.get_value().get('agents', {})
+            eng.end()
+        left = grace()
+    except Exception as e:
+        err = '%s: %s' % (type(e).__name__, ('[still pending] ' if 'still pending' in str(e) else '') + str(e)[:150])
+        left = grace()
+    finally:
+        gc.enable()
     for ch in multiprocessing.active_children():
         ch.terminate()
     return {'err': err, 'gone': gone, 'left': left}
